@@ -43,7 +43,7 @@ MANIFEST = {
 RULE = ("ops b58enc/b58dec/b58cenc/b58cdec/b58cvalid/c11_pb58/bech32enc/bech32dec/bech32raw/bech32err/c11_pbech32/convertbits/bech32chk/pstr_seq; "
         "boundary corpus (0..5 leading zero bytes alone and before data, empty string, look-alike and non-ASCII characters, every "
         "witness version 0..16 x program length 1..41, hrp length 1/83/84, total length 89/90/91, mixed case, wrong constant, "
-        "non-zero padding) + seeded random valid and corrupted strings; distinct = distinct op line; trivial = input rejected at the "
+        "non-zero padding, every Unicode character whose lower/upper/casefold/NFKC form is an ASCII character substituted into valid lower- and upper-case strings) + seeded random valid and corrupted strings; distinct = distinct op line; trivial = input rejected at the "
         "first character test")
 ASSUMPTIONS = [
     "a Python str is represented by its UTF-8 bytes (Base58) / its code points (Bech32); strings with lone surrogates are not generated",
@@ -423,6 +423,10 @@ def oracle(op: str, out: str):
     elif k == "pstr_seq":
         text, steps = h2s(a[1]), a[2].split(",")
         shared = _pstr_run(text, steps, shared=True)
+        if any(ord(c) < 33 or ord(c) > 126 for c in text):
+            for st, r in zip(steps, shared):
+                if (st.endswith(".address") or st in ("b58", "b58sha", "b58grs", "bech32")) and r != "none":
+                    return "a string with a character outside 33..126 was accepted by %s" % st
         fresh = _pstr_run(text, steps, shared=False)
         for i, (x, y) in enumerate(zip(shared, fresh)):
             if x != y:
@@ -508,6 +512,29 @@ def neighbours(op, rng):
     elif k == "bech32chk":
         yield "bech32chk %s %s 1" % (a[1], a[2])
         yield "bech32chk %s %s 2" % (a[1], a[2])
+
+
+_CONF = None
+
+
+def _confusables():
+    """ASCII character (lower-cased) -> the non-ASCII characters that some Python text operation (lower, upper, casefold,
+    NFKC and its case variants) turns into it.  U+212A KELVIN SIGN -> k, U+017F -> s, U+0130/U+0131 -> i, fullwidth forms,
+    mathematical alphanumerics, circled/parenthesised forms whose NFKC is one character, ..."""
+    global _CONF
+    if _CONF is None:
+        import unicodedata
+        m: dict = {}
+        for cp in list(range(0x80, 0x10000)) + list(range(0x1D400, 0x1D800)) + list(range(0x1F100, 0x1F190)):
+            if 0xD800 <= cp <= 0xDFFF:
+                continue
+            c = chr(cp)
+            n = unicodedata.normalize("NFKC", c)
+            for f in {c.lower(), c.upper(), c.casefold(), n, n.lower(), n.upper()}:
+                if len(f) == 1 and 33 <= ord(f) <= 126:
+                    m.setdefault(f.lower(), set()).add(c)
+        _CONF = {k: sorted(v) for k, v in m.items()}
+    return _CONF
 
 
 def _hrp(rng, n):
@@ -803,3 +830,53 @@ def gen(ctx, emit):
         if rng.random() < 0.4:
             steps[0] = rng.choice(["b58grs", "net:grs.address", "net:grs.wif"])
         emit("pstr_seq %s %s" % (s2h(t), ",".join(steps)))
+
+    # ---------------------------------------------------------------- look-alike Unicode characters (case folding / NFKC)
+    conf = _confusables()
+    p2wpkh = _ref_segwit("bc", 0, bytes.fromhex("751e76e8199196d454941c45d1b3a323f1433bd6"))   # contains k, s, i-free; BIP173 example
+    bases = [p2wpkh, _ref_segwit("tb", 1, bytes(range(32))), _ref_bech32_encode("kiss", [10, 22, 16, 31], 1),
+             _ref_bech32_encode("a", [], 2), _ref_bech32_encode("k", [22] * 8, 2)]
+    # the character named in BIP173-style all-upper-case strings: every K / S / I position, both cases, with the special four
+    for t in bases:
+        for cased in (t, t.upper()):
+            for i, ch in enumerate(cased):
+                for c in ("\u212a", "\u017f", "\u0130", "\u0131"):
+                    if c.lower() == ch.lower() or c.upper() == ch.upper() or c.casefold() == ch.lower():
+                        t2 = cased[:i] + c + cased[i + 1:]
+                        emit("bech32raw " + s2h(t2))
+                        emit("bech32dec %s %s" % (s2h(t[:t.rfind("1")]), s2h(t2)))
+                        emit("c11_pbech32 " + s2h(t2))
+                        emit("pstr_seq %s net:btc.address,bech32,net:xtn.address" % s2h(t2))
+    budget = ctx.n(2500, 60000)
+    cands = []
+    for t in bases + [x[1] for x in valid_strings[:40]]:
+        for cased in (t, t.upper()):
+            for i, ch in enumerate(cased):
+                for c in conf.get(ch.lower(), []):
+                    cands.append((t, cased, i, c))
+    rng.shuffle(cands)
+    for t, cased, i, c in cands[:budget]:
+        t2 = cased[:i] + c + cased[i + 1:]
+        r = rng.random()
+        if r < 0.6:
+            emit("bech32raw " + s2h(t2))
+        elif r < 0.8:
+            emit("bech32dec %s %s" % (s2h(t[:t.rfind("1")]), s2h(t2)))
+        elif r < 0.9:
+            emit("c11_pbech32 " + s2h(t2))
+        else:
+            emit("pstr_seq %s %s" % (s2h(t2), ",".join(rng.sample(["net:btc.address", "bech32", "net:xtn.address", "net:ltc.address", "b58sha"], 3))))
+    # Base58: characters whose case fold / NFKC is an alphabet letter or digit
+    b58bases = [_ref_b58enc(p + _dsha4(p)) for p in (b"\x00" + bytes(range(1, 21)), b"\x05" + bytes(20), b"\x80" + b"\x11" * 32 + b"\x01")]
+    cands = []
+    for t in b58bases:
+        for i, ch in enumerate(t):
+            for c in conf.get(ch.lower(), []):
+                cands.append((t, i, c))
+    rng.shuffle(cands)
+    for t, i, c in cands[:ctx.n(600, 20000)]:
+        t2 = t[:i] + c + t[i + 1:]
+        for k in rng.sample(["b58dec", "b58cdec", "b58cvalid", "c11_pb58"], 2):
+            emit("%s %s" % (k, s2h(t2)))
+        if rng.random() < 0.1:
+            emit("pstr_seq %s net:btc.address,b58sha,b58" % s2h(t2))
